@@ -625,36 +625,61 @@ func (t *RaftTransaction) ListPage(ctx context.Context, prefix string, after str
 		// added after the last one, so verify the complete remainder instead.
 		verifyLimit = math.MaxInt32
 	}
-	presentKeys, err := listPageInner(ctx, t.tx, prefix, after, verifyLimit)
-	if err != nil {
-		return nil, err
-	}
-	listParams, contentsHash, err := createListVerificationEntry(prefix, after, verifyLimit, presentKeys)
-	if err != nil {
-		return nil, err
-	}
-
 	// Add the list to the verification log, to ensure nobody else has written
 	// to it while the transaction was operating. While it is technically
 	// possible to collapse operations across values for after (sharing the
 	// same prefix), we only collapse to a single log operation if we have
 	// a higher limit than the existing entry.
-	if _, present := t.lists[prefix]; !present {
-		t.lists[prefix] = make(map[string]map[int]*LogOperation, 1)
-		t.lists[prefix][after] = make(map[int]*LogOperation, 1)
-	} else if _, present := t.lists[prefix][after]; !present {
-		t.lists[prefix][after] = make(map[int]*LogOperation, 1)
+	recordVerification := func(prefix string, after string, verifyLimit int) error {
+		presentKeys, err := listPageInner(ctx, t.tx, prefix, after, verifyLimit)
+		if err != nil {
+			return err
+		}
+		listParams, contentsHash, err := createListVerificationEntry(prefix, after, verifyLimit, presentKeys)
+		if err != nil {
+			return err
+		}
+
+		if _, present := t.lists[prefix]; !present {
+			t.lists[prefix] = make(map[string]map[int]*LogOperation, 1)
+			t.lists[prefix][after] = make(map[int]*LogOperation, 1)
+		} else if _, present := t.lists[prefix][after]; !present {
+			t.lists[prefix][after] = make(map[int]*LogOperation, 1)
+		}
+		existingLimit := -1
+		for existingVerifyLimit := range t.lists[prefix][after] {
+			existingLimit = existingVerifyLimit
+		}
+		if verifyLimit > existingLimit {
+			delete(t.lists[prefix][after], existingLimit)
+			t.lists[prefix][after][verifyLimit] = &LogOperation{
+				OpType: verifyListOp,
+				Key:    listParams,
+				Value:  contentsHash,
+			}
+		}
+
+		return nil
 	}
-	existingLimit := -1
-	for existingVerifyLimit := range t.lists[prefix][after] {
-		existingLimit = existingVerifyLimit
+	if err := recordVerification(prefix, after, verifyLimit); err != nil {
+		return nil, err
 	}
-	if verifyLimit > existingLimit {
-		delete(t.lists[prefix][after], existingLimit)
-		t.lists[prefix][after][verifyLimit] = &LogOperation{
-			OpType: verifyListOp,
-			Key:    listParams,
-			Value:  contentsHash,
+
+	// A folder stays in our result for as long as it holds keys other than
+	// the ones deleted in this transaction, which the listing of this prefix
+	// in the underlying storage does not tell: verify the folders above every
+	// key we deleted as well.
+	for key := range deletions {
+		subKey := strings.TrimPrefix(key, prefix)
+		for i := strings.Index(subKey, "/"); i != -1; {
+			if err := recordVerification(prefix+subKey[:i+1], "", math.MaxInt32); err != nil {
+				return nil, err
+			}
+			next := strings.Index(subKey[i+1:], "/")
+			if next == -1 {
+				break
+			}
+			i += next + 1
 		}
 	}
 
